@@ -445,6 +445,17 @@ impl HandlerRunner {
                     self.mon_identity(idx, &enr.node_id(), addr, dh, "established", out);
                     if self.delivering_handshake {
                         self.mon_fresh_challenge(idx, out);
+                        // C12 (handler half): an incoming session is reported established only if the
+                        // record's UDP socket of the observed family, when present, equals the source
+                        let advertised = match addr {
+                            SocketAddr::V4(_) => enr.udp4_socket().map(SocketAddr::V4),
+                            SocketAddr::V6(_) => enr.udp6_socket().map(SocketAddr::V6),
+                        };
+                        if let Some(a) = advertised {
+                            if a != addr {
+                                out.push(format!("!MON C12 session-established-with-foreign-address node={} record={} observed={}", idx, a, addr));
+                            }
+                        }
                     }
                 }
                 HandlerOut::Request(na, req) => {
@@ -696,7 +707,11 @@ impl Runner for HandlerRunner {
     fn step(&mut self, line: &str, out: &mut Vec<String>, stats: &mut Stats) {
         let t: Vec<&str> = line.split(' ').collect();
         match t.as_slice() {
-            ["hworld", n, retries, timeout_ms, cap, ttl_ms] => {
+            ["hworld", n, retries, timeout_ms, cap, ttl_ms, ..] => {
+                // optional 7th token: per-node record mode, one digit per node: 0 = record advertises
+                // the node's real socket, 1 = same IP but another port, 2 = no UDP socket at all,
+                // 3 = another IP
+                let modes: Vec<u8> = t.get(6).map(|m| m.bytes().map(|b| b.wrapping_sub(b'0')).collect()).unwrap_or_default();
                 self.reset();
                 let n: u64 = n.parse().unwrap_or(2);
                 self.retries = retries.parse().unwrap_or(1);
@@ -710,10 +725,17 @@ impl Runner for HandlerRunner {
                     let key = key_of_idx(idx);
                     let addr = node_addr(idx);
                     let ip = match addr { SocketAddr::V4(a) => *a.ip(), _ => unreachable!() };
-                    let enr = make_enr(&key, 1, Some((ip, addr.port())), None, 0);
+                    let mode = modes.get(idx as usize - 1).copied().unwrap_or(0);
+                    let adv: Option<(Ipv4Addr, u16)> = match mode {
+                        1 => Some((ip, addr.port() + 100)),
+                        2 => None,
+                        3 => Some((Ipv4Addr::new(10, 0, 1, idx as u8), addr.port())),
+                        _ => Some((ip, addr.port())),
+                    };
+                    let enr = make_enr(&key, 1, adv, None, 0);
                     self.ids.insert(enr.node_id(), idx);
                     // address registry: index == node idx
-                    while self.addrs.len() <= idx as usize {
+                    while self.addrs.len() <= ATTACKER as usize {
                         let k = self.addrs.len() as u64;
                         self.addrs.push(node_addr(if k == 0 { 200 } else { k }));
                     }
@@ -738,9 +760,13 @@ impl Runner for HandlerRunner {
                         idx, key, enr, addr, to_handler, from_handler, wire, _exit: exit,
                         wru: Vec::new(), requests: Vec::new(), c_nonce: 0, c_cd: 0, c_eph: 0, c_rid: 0,
                     });
+                    let u4 = match adv {
+                        Some((aip, aport)) => self.addr_idx(SocketAddr::new(aip.into(), aport)).split(':').nth(1).unwrap().to_string(),
+                        None => "-".to_string(),
+                    };
                     ops.push(format!(
                         "hnew {} 1 {} {} {} {} 2 4:{} {} -",
-                        idx, self.retries, self.timeout_ms, ttl_ms, cap, idx, idx
+                        idx, self.retries, self.timeout_ms, ttl_ms, cap, idx, u4
                     ));
                 }
                 // attacker identity (its own key and record, an address of its own)
@@ -1137,6 +1163,9 @@ pub fn gen_case(rng: &mut Rng, tier: &str, profile: &str, stats: &mut Stats) -> 
     if c15 {
         // short real-time session timeout, small cache
         ops.push(format!("hworld {} {} {} {} 400", n, retries, timeout, rng.range(1, 3)));
+    } else if profile == "C12" || rng.chance(1, 4) {
+        let modes: String = (0..n).map(|_| match rng.below(6) { 0 => '1', 1 => '2', 2 => '3', _ => '0' }).collect();
+        ops.push(format!("hworld {} {} {} 1000 86400000 {}", n, retries, timeout, modes));
     } else {
         ops.push(format!("hworld {} {} {} 1000 86400000", n, retries, timeout));
     }
